@@ -42,6 +42,33 @@ func orParts(v ssa.Value, konst *int64, calls map[string]int64, other *[]string)
 			orParts(x.Y, konst, calls, other)
 			return
 		}
+		if x.Op == token.AND {
+			// mask & byte(t): the body of tableType.tbit / indexType.nbit written out
+			a, b := x.X, x.Y
+			if _, isK := a.(*ssa.Const); isK {
+				a, b = b, a
+			}
+			if k, isK := b.(*ssa.Const); isK {
+				switch cv := a.(type) {
+				case *ssa.Convert:
+					a = cv.X
+				case *ssa.ChangeType:
+					a = cv.X
+				}
+				if nt, _ := a.Type().(*types.Named); nt != nil {
+					if n, ok := IntOf64(k); ok {
+						switch nt.Obj().Name() {
+						case "tableType":
+							calls["tbit"] = n
+							return
+						case "indexType":
+							calls["nbit"] = n
+							return
+						}
+					}
+				}
+			}
+		}
 	case *ssa.Const:
 		if n, ok := IntOf64(x); ok {
 			*konst |= n
@@ -51,8 +78,8 @@ func orParts(v ssa.Value, konst *int64, calls map[string]int64, other *[]string)
 		orParts(x.X, konst, calls, other)
 		return
 	case *ssa.Call:
-		if f := x.Call.StaticCallee(); f != nil && len(x.Call.Args) == 2 {
-			if k, ok := x.Call.Args[1].(*ssa.Const); ok {
+		if f := x.Call.StaticCallee(); f != nil && len(BaselineArgs(&x.Call)) == 2 {
+			if k, ok := BaselineArgs(&x.Call)[1].(*ssa.Const); ok {
 				if n, ok := IntOf64(k); ok {
 					calls[f.Name()] = n
 					return
@@ -169,8 +196,8 @@ func c33(c *Ctx) {
 		var tag int64
 		masks := map[string]int64{}
 		var other []string
-		orParts(first.Common().Args[1], &tag, masks, &other)
-		pk, okp := first.Common().Args[2].(*ssa.Const)
+		orParts(BaselineArgs(first.Common())[1], &tag, masks, &other)
+		pk, okp := BaselineArgs(first.Common())[2].(*ssa.Const)
 		plen, _ := int64(0), false
 		if okp {
 			plen, okp = IntOf64(pk)
@@ -239,10 +266,10 @@ func c33(c *Ctx) {
 		var dT, dN int64 = -1, -1
 		ForEachInstr(df, func(in ssa.Instruction) {
 			call, ok := in.(*ssa.Call)
-			if !ok || len(call.Call.Args) != 1 {
+			if !ok || len(BaselineArgs(&call.Call)) != 1 {
 				return
 			}
-			m, ok := andMaskOfParam(call.Call.Args[0], "$0")
+			m, ok := andMaskOfParam(BaselineArgs(&call.Call)[0], "$0")
 			if !ok {
 				return
 			}
@@ -295,7 +322,7 @@ func c33(c *Ctx) {
 		}
 		// name checks use the very value handed to the callback
 		if sites := cb.F(c.P, fn); len(sites) == 1 {
-			args := sites[0].(ssa.CallInstruction).Common().Args
+			args := BaselineArgs(sites[0].(ssa.CallInstruction).Common())
 			name := Term(args[1])
 			c.Reject(dec, cb, "len("+name+") == 0")
 			// pseudo-header after regular field: a boolean merged over the loop is tested under name[0]==':'
@@ -448,24 +475,58 @@ func postBaseCaseSetsError(c *Ctx, dec string, k int) {
 	}
 	spec := fmt.Sprintf("LeadingZeros8(ReadByte($0)#0) == %d", k)
 	found, good := false, false
+	want, perr := c.P.ParseAtom(spec)
+	if perr != nil {
+		c.Undecided(rule, construct, perr.Error())
+		return
+	}
+	isErr := func(t types.Type) bool { return types.Identical(t, types.Universe.Lookup("error").Type()) }
+	// follow the edge on which the dispatch value equals k (a case may list several values, so the
+	// case body can have several predecessors) through straight-line blocks to the merge of the error variable
 	ForEachInstr(fn, func(in ssa.Instruction) {
-		ph, ok := in.(*ssa.Phi)
-		if !ok || !types.Identical(ph.Type(), types.Universe.Lookup("error").Type()) {
+		ifi, ok := in.(*ssa.If)
+		if !ok {
 			return
 		}
-		for i, e := range ph.Edges {
-			pred := ph.Block().Preds[i]
-			if len(pred.Instrs) == 0 || !c.P.HoldsAt(pred.Instrs[len(pred.Instrs)-1], spec, true) {
-				continue
+		a := CondAtom(ifi.Cond)
+		idx := -1
+		if SameAtom(a, want) {
+			idx = 0
+		} else if SameAtom(a.Negate(), want) {
+			idx = 1
+		}
+		if idx < 0 {
+			return
+		}
+		prev, cur := ifi.Block(), ifi.Block().Succs[idx]
+		for steps := 0; steps < 8; steps++ {
+			var ph *ssa.Phi
+			for _, x := range cur.Instrs {
+				if p, isPhi := x.(*ssa.Phi); isPhi && isErr(p.Type()) {
+					ph = p
+				}
 			}
-			found = true
-			if call, ok := e.(*ssa.Call); ok {
-				n := CalleeName(&call.Call)
-				good = n == "errors.New" || n == "fmt.Errorf"
-			} else if mi, ok := e.(*ssa.MakeInterface); ok {
-				_, isConst := mi.X.(*ssa.Const)
-				good = isConst
+			if ph != nil {
+				for i, pred := range cur.Preds {
+					if pred != prev {
+						continue
+					}
+					found = true
+					e := ph.Edges[i]
+					if call, ok := e.(*ssa.Call); ok {
+						n := CalleeName(&call.Call)
+						good = n == "errors.New" || n == "fmt.Errorf"
+					} else if mi, ok := e.(*ssa.MakeInterface); ok {
+						_, isConst := mi.X.(*ssa.Const)
+						good = isConst
+					}
+				}
+				return
 			}
+			if len(cur.Succs) != 1 {
+				return
+			}
+			prev, cur = cur, cur.Succs[0]
 		}
 	})
 	switch {
